@@ -1,12 +1,33 @@
 import GomlVerif.Driver.C04
 import GomlVerif.Driver.C05
+import GomlVerif.Driver.C06
+import GomlVerif.Driver.C10
+import GomlVerif.Driver.C12
 import GomlVerif.Driver.C15
 import GomlVerif.Driver.C20
+import GomlVerif.Driver.SemRun
+import GomlVerif.Driver.GoCheckRun
+import GomlVerif.Driver.C11
+import GomlVerif.Driver.C19
+import GomlVerif.Driver.C13
+import GomlVerif.Driver.C16
+import GomlVerif.Driver.C09
 
 def main (args : List String) : IO UInt32 := do
   match args with
   | ["c04"] => Goml.Driver.C04.main; return 0
   | ["c05"] => Goml.Driver.C05.main; return 0
+  | ["c06"] => Goml.Driver.C06.main; return 0
+  | ["c10"] => Goml.Driver.C10.main; return 0
+  | ["c12"] => Goml.Driver.C12.main; return 0
   | ["c15"] => Goml.Driver.C15.main; return 0
   | ["c20"] => Goml.Driver.C20.main; return 0
+  | ["sem"] => Goml.Driver.SemRun.main; return 0
+  | ["gocheck"] => Goml.Driver.GoCheckRun.main; return 0
+  | ["c11"] => Goml.Driver.C11.main; return 0
+  | ["c17"] => Goml.Driver.C19.main; return 0
+  | ["c19"] => Goml.Driver.C19.main; return 0
+  | ["c13"] => Goml.Driver.C13.main; return 0
+  | ["c16"] => Goml.Driver.C16.main; return 0
+  | ["c09"] => Goml.Driver.C09.main; return 0
   | _ => IO.eprintln "usage: gomlmodel <c05|…> < lines"; return 2
